@@ -1,5 +1,5 @@
 (* Properties/C22.v — event notifications exactly for committed mutations (model: Model/Notify.v). *)
-From Verif Require Import Bytes Codec Notify NotifyProofs.
+From Verif Require Import Bytes Codec Notify NotifyProofs NotifyStepProofs.
 
 (* RuleMatches = the documented rule: some configured event equals the event name or is a "<prefix>:*" pattern
    whose "<prefix>:" starts the name, and every prefix / suffix filter rule holds for the key (other filter names
@@ -100,6 +100,178 @@ Proof.
   - apply delay_exponential, defaults_ok.
 Qed.
 Print Assumptions C22_backoff_exponential_monotone.
+
+(* ================= round 2a: DeleteObjects (multi-object delete) ================= *)
+
+(* one DeleteObjects request through the middleware, with every fault position: either nothing is persisted, or the
+   bucket after deciding every entry on the transaction's working copy is persisted together with exactly
+   batch_rows of the per-entry results; one result per requested entry *)
+Theorem C22_batch_atomic : forall (b : bytes) (ents : list bent) (j : nat) (commitfail : bool) (s s' : st)
+                                  (ok : bool) (rs : list bres) (es : list entry),
+  run_batch b ents j commitfail s = (s', ok, rs, es) ->
+  (ok = false -> s' = s /\ rs = [] /\ es = []) /\
+  (ok = true -> commitfail = false /\ ~ (0 < j <= length es) /\ length rs = length ents /\
+     s_outbox s' = s_outbox s ++ es /\
+     exists bk bk', blookup b (s_buckets s) = Some bk /\ batch_entries bk (map (resolve bk) ents) = (bk', rs) /\
+                    s_buckets s' = bset b bk' (s_buckets s) /\ es = batch_rows bk' b (map be_key ents) rs).
+Proof. exact run_batch_spec. Qed.
+Print Assumptions C22_batch_atomic.
+
+(* the rows of a batch are the rows of exactly the entries reported deleted: a row is enqueued iff some entry i
+   was answered Deleted, the row belongs to that entry's key, to the event of that entry (DeleteMarkerCreated iff
+   the result says DeleteMarker) and to a matching rule (C22_entries_are_matching_rules); refused entries
+   (Deleted=false) contribute nothing *)
+Theorem C22_batch_rows_iff_deleted : forall (bk : bucket) (b : bytes) (ks : list bytes) (rs : list bres) (e : entry),
+  In e (batch_rows bk b ks rs) <->
+  exists i k m, nth_error ks i = Some k /\ nth_error rs i = Some (BDeleted m) /\
+                In e (entries_for bk b (if m then ev_marker else ev_del) k).
+Proof. exact batch_rows_spec. Qed.
+Print Assumptions C22_batch_rows_iff_deleted.
+
+(* a refused entry leaves the working copy as it was *)
+Theorem C22_batch_refused_untouched : forall (bk bk' : bucket) (e : rent), batch_entry bk e = (bk', BRefused) -> bk' = bk.
+Proof. intros bk bk' e. apply batch_entry_refused. Qed.
+Print Assumptions C22_batch_refused_untouched.
+
+(* ================= round 2b: the dispatcher across crashes, lease expiry and several owners =================
+   The persisted attempts counter is incremented by the CLAIM.  An owner that claimed and never dispatched is a
+   crashed process; [wfail] is a dispatcher whose delete / release / dead-letter write did not happen. *)
+
+(* claims: only a due, not dead-lettered row that is unclaimed or whose lease ran out is claimed; the claim persists
+   attempts+1 and the claimer; every other row is untouched, no row appears or disappears *)
+Theorem C22_claim_spec : forall (oid : nat) (rs rs' : list row) (id : nat) (a : Z) (e : entry),
+  claim_first oid rs = (rs', Some (id, a, e)) ->
+  exists r, In r rs /\ w_id r = id /\ claimable r = true /\ e = w_e r /\ a = (n_attempts (w_e r) + 1)%Z /\
+            In (with_entry (set_attempts a (w_e r)) (Some (oid, false)) r) rs' /\
+            map w_id rs' = map w_id rs /\
+            (forall r0, In r0 rs' -> r0 = with_entry (set_attempts a (w_e r)) (Some (oid, false)) r \/ In r0 rs).
+Proof. exact claim_first_spec. Qed.
+Print Assumptions C22_claim_spec.
+
+Theorem C22_dead_or_leased_not_claimable : forall (r : row),
+  (n_state (w_e r) = Dead -> claimable r = false) /\ (forall o, w_claim r = Some (o, false) -> claimable r = false).
+Proof. intros r. split; [apply dead_not_claimable | intros o; apply live_lease_not_claimable]. Qed.
+Print Assumptions C22_dead_or_leased_not_claimable.
+
+(* THE DEAD-LETTER RULE: whenever the claim owner handles a failed attempt whose attempts value is >= its
+   MaxAttempts > 0 — equal to it or, after crashed claims / a lowered MaxAttempts, already beyond it — the row is
+   dead-lettered at once (and by C22_dead_or_leased_not_claimable never claimed, hence never dispatched, again) *)
+Theorem C22_dead_letter_at_or_past_max : forall (c : dcfg) (fails : bytes -> Z -> bool) (o : owner) (id : nat) (a : Z)
+                                                (e : entry) (rs : list row),
+  o_held o = Some (id, a, e) -> holds_claim o id rs -> fails (n_dest e) a = true ->
+  (forall r, find_row id rs = Some r -> n_dest (w_e r) = n_dest e) ->
+  (0 < o_max o <= a)%Z ->
+  exists r', find_row id (fst (handle_held c fails o false rs)) = Some r' /\ n_state (w_e r') = Dead /\ w_claim r' = None.
+Proof. exact handle_dead_letters. Qed.
+Print Assumptions C22_dead_letter_at_or_past_max.
+
+(* below MaxAttempts (or unlimited): released, not due, attempts unchanged, backoff of that attempt *)
+Theorem C22_release_below_max : forall (c : dcfg) (fails : bytes -> Z -> bool) (o : owner) (id : nat) (a : Z)
+                                       (e : entry) (rs : list row),
+  o_held o = Some (id, a, e) -> holds_claim o id rs -> fails (n_dest e) a = true ->
+  (forall r, find_row id rs = Some r -> n_dest (w_e r) = n_dest e) ->
+  ~ (0 < o_max o <= a)%Z ->
+  exists r r', find_row id rs = Some r /\ find_row id (fst (handle_held c fails o false rs)) = Some r' /\
+    n_state (w_e r') = Pending false /\ w_claim r' = None /\ n_attempts (w_e r') = n_attempts (w_e r) /\
+    n_delay (w_e r') = Some (delay c a).
+Proof. exact handle_releases. Qed.
+Print Assumptions C22_release_below_max.
+
+(* an acknowledged publish whose delete is written by the claim owner removes the row: never published after that *)
+Theorem C22_ack_deletes : forall (c : dcfg) (fails : bytes -> Z -> bool) (o : owner) (id : nat) (a : Z) (e : entry) (rs : list row),
+  NoDup (map w_id rs) -> o_held o = Some (id, a, e) -> holds_claim o id rs -> fails (n_dest e) a = false ->
+  (forall r, find_row id rs = Some r -> n_dest (w_e r) = n_dest e) ->
+  find_row id (fst (handle_held c fails o false rs)) = None.
+Proof. exact handle_ack_deletes. Qed.
+Print Assumptions C22_ack_deletes.
+
+(* THE EXCEPTION, stated explicitly: a dispatcher whose database write does not happen (it died between publish and
+   delete / release / dead-letter) or that lost the claim (lease ran out, another owner took the row over) still
+   PUBLISHES, and changes nothing in the table.  After an acknowledged publish of this kind the row is still there and
+   is delivered again once its lease has run out: the at-least-once redelivery.  This is the only way a row is
+   published after an acknowledged publish. *)
+Theorem C22_publish_without_effect : forall (c : dcfg) (fails : bytes -> Z -> bool) (o : owner) (wfail : bool)
+                                            (rs : list row) (id : nat) (a : Z) (e : entry),
+  o_held o = Some (id, a, e) ->
+  wfail = true \/ ~ holds_claim o id rs ->
+  fst (handle_held c fails o wfail rs) = rs /\
+  snd (handle_held c fails o wfail rs) =
+    Some {| p_dest := n_dest e; p_event := n_event e; p_key := n_key e; p_attempt := a; p_ok := negb (fails (n_dest e) a) |}.
+Proof. exact handle_without_claim. Qed.
+Print Assumptions C22_publish_without_effect.
+
+(* never lost, one dispatch: a row leaves the table only when its claim owner's write follows a successful publish *)
+Theorem C22_never_lost_step : forall (c : dcfg) (fails : bytes -> Z -> bool) (o : owner) (wfail : bool) (rs : list row) (r : row),
+  In r rs ->
+  (exists r', In r' (fst (handle_held c fails o wfail rs)) /\ w_id r' = w_id r) \/
+  (exists a e x, o_held o = Some (w_id r, a, e) /\ wfail = false /\ w_claim r = Some (o_id o, x) /\
+                 fails (n_dest (w_e r)) a = false).
+Proof. exact handle_never_loses. Qed.
+Print Assumptions C22_never_lost_step.
+
+(* ALL SCHEDULES: for every step of every history (mutations, batches, dispatchAvailable, claims by any owner,
+   dispatches with or without failing writes, lease expiry, ageing, restarts with another MaxAttempts) the table
+   after the step is old ++ new where
+   - every dead-lettered row of the old table is still there, dead-lettered, with the same attempts, unclaimed;
+   - every row of the old table is still there with the same destination, or a publish to its destination succeeded;
+   - no row appears among the old ones; new rows (of a committed mutation) are due, unclaimed, attempts 0, fresh ids;
+   - dead rows carry no claim and ids stay unique *)
+Theorem C22_every_step : forall (c : dcfg) (fails : bytes -> Z -> bool) (o : hop) (s s' : hst) (out : bytes),
+  hstep c fails o s = (s', out) ->
+  exists old new, h_rows s' = old ++ new /\
+    (forall r, In r (h_rows s) -> n_state (w_e r) = Dead -> w_claim r = None ->
+       exists r', In r' old /\ w_id r' = w_id r /\ n_state (w_e r') = Dead /\ n_attempts (w_e r') = n_attempts (w_e r) /\ w_claim r' = None) /\
+    (forall r, In r (h_rows s) -> (exists r', In r' old /\ w_id r' = w_id r /\ n_dest (w_e r') = n_dest (w_e r)) \/
+                                  (exists a, fails (n_dest (w_e r)) a = false)) /\
+    (forall r', In r' old -> exists r, In r (h_rows s) /\ w_id r = w_id r') /\
+    (forall r, In r new -> n_state (w_e r) = Pending true /\ w_claim r = None /\ n_attempts (w_e r) = 0%Z) /\
+    map w_id new = seq (h_nextid s) (length new).
+Proof.
+  intros c fails o s s' out H.
+  destruct (hstep_rows _ _ _ _ _ _ H) as (old & new & Hr & (S1 & S2 & S3 & _ & _) & Hn & Hi & _).
+  exists old, new. auto 10.
+Qed.
+Print Assumptions C22_every_step.
+
+(* every reachable table has unique row ids and its dead-lettered rows carry no claim (so C22_ack_deletes applies
+   and, with C22_every_step, a dead-lettered row stays dead-lettered for ever) *)
+Theorem C22_reachable_good : forall (c : dcfg) (fails : bytes -> Z -> bool) (ops : list hop),
+  let s := hstate c fails ops (hst_init c) in
+  NoDup (map w_id (h_rows s)) /\ (forall r, In r (h_rows s) -> n_state (w_e r) = Dead -> w_claim r = None).
+Proof.
+  intros c fails ops s. destruct (hstate_good c fails ops (hst_init c) (good_init c)) as (H1 & _ & H2). split; [exact H1 | exact H2].
+Qed.
+Print Assumptions C22_reachable_good.
+
+(* what does NOT hold (and is not claimed by the property): "a row is published at most MaxAttempts times".
+   With MaxAttempts 2 and a dispatcher that dies after every publish the row is published three times (and more). *)
+Definition C22_publishes_bounded_by_max_full : Prop :=
+  forall (c : dcfg) (fails : bytes -> Z -> bool) (ops : list hop) (outs : list bytes),
+    hrun c fails ops (hst_init c) = outs ->
+    length (filter (fun o => is_prefix B"pub[q|" o) outs) <= Z.to_nat (d_maxatt c).
+Theorem C22_publishes_bounded_by_max_refuted : ~ C22_publishes_bounded_by_max_full.
+Proof.
+  intros H.
+  set (c := with_defaults {| d_maxatt := 2; d_min := 60000000000; d_max := 0 |}).
+  set (q := {| r_dest := B"q"; r_events := [B"s3:*"]; r_filters := [] |}).
+  specialize (H c (fun _ _ => true)
+    [HCreate B"bka"; HConfig B"bka" false [q]; HMut (MPut B"bka" B"a") 0;
+     HClaim 0; HHandle 0 true; HExpire; HClaim 1; HHandle 1 true; HExpire; HClaim 2; HHandle 2 true] _ eq_refl).
+  vm_compute in H. lia.
+Qed.
+Print Assumptions C22_publishes_bounded_by_max_refuted.
+
+(* attempts stepping PAST MaxAttempts without a handled failure, then one handled failure: dead-lettered at once *)
+Example C22_ex_past_max :
+  let c := with_defaults {| d_maxatt := 2; d_min := 60000000000; d_max := 0 |} in
+  let q := {| r_dest := B"q"; r_events := [B"s3:*"]; r_filters := [] |} in
+  hrun c (fun _ _ => true)
+    [HCreate B"bka"; HConfig B"bka" false [q]; HMut (MPut B"bka" B"a") 0;
+     HClaim 0; HExpire; HClaim 1; HExpire; HClaim 2; HHandle 2 false; HExpire; HAge; HClaim 0] (hst_init c)
+  = [B"ok"; B"ok"; B"ok[q|ObjectCreated:Put|a]+";
+     B"cq|ObjectCreated:Put|a|1"; B"ok"; B"cq|ObjectCreated:Put|a|2"; B"ok"; B"cq|ObjectCreated:Put|a|3";
+     B"pub[q|ObjectCreated:Put|a|3|f]rows[q|ObjectCreated:Put|a|3|D]"; B"ok"; B"ok"; B"none"].
+Proof. vm_compute. reflexivity. Qed.
 
 (* non-vacuity *)
 Example C22_ex_rule :
